@@ -269,10 +269,10 @@ impl Story {
                         sb.push_str(self.get_state().get_current_errors()[0].as_str());
                         return Err(StoryError::InvalidStoryState(sb));
                     }
-                    // Only warnings and no handler: discard silently (consistent
-                    // with the C# reference implementation which does not throw
-                    // for warnings without a handler).
-                    self.reset_errors();
+                    // Only warnings and no handler: never an Err (consistent with the
+                    // C# reference implementation which does not throw for warnings
+                    // without a handler); they stay readable through
+                    // get_current_warnings().
                 }
             }
         }
